@@ -296,7 +296,7 @@ func (g *Generator) generateFlattenFieldUnmarshal(gf *protogen.GeneratedFile, in
 	}
 
 	childMsg := field.Message
-	childTypeName := childMsg.GoIdent.GoName
+	childTypeName := childMsg.GoIdent // qualified by P when the child type lives in another package
 
 	gf.P("// Extract flattened child fields for: ", field.Desc.Name())
 	gf.P("{")
